@@ -4,6 +4,9 @@ import GoUefi.Driver.AuthDesc
 import GoUefi.Driver.Boot
 import GoUefi.Driver.Pkcs7
 import GoUefi.Driver.Pe
+import GoUefi.Driver.VarSign
+import GoUefi.Driver.VarFs
+import GoUefi.Driver.Store
 /-
   Line protocol driver: one operation per line in (`<id> <op> <args…>`), one canonical line
   out (`<id> <result>`).  Unknown operations and malformed arguments answer `bad-op`.
@@ -11,7 +14,7 @@ import GoUefi.Driver.Pe
 open GoUefi.Drv
 
 def dispatch (op : String) (args : List String) : String :=
-  let hs : List (String → List String → Option String) := [handleC17, handleSigDb, handleAuth, handleBoot, handlePkcs7, handlePe]
+  let hs : List (String → List String → Option String) := [handleC17, handleSigDb, handleAuth, handleBoot, handlePkcs7, handlePe, handleVarSign, handleVarFs, handleStore]
   match hs.findSome? (fun h => h op args) with
   | some r => r
   | none => "bad-op"
